@@ -794,6 +794,8 @@ class PhaseField(_IModel):
 
             # Eigenvalue calculations [e,pg]
             delta = tr_e_pg**2 - (4 * det_e_pg)
+            # delta = (v1 - v2)^2 >= 0 mathematically; round-off leaves it slightly negative at (nearly) equal eigenvalues
+            delta = np.maximum(delta, 0.0)
 
             eigs_e_pg = FeArray.zeros(Ne, nPg, 2)
             eigs_e_pg[:, :, 0] = (tr_e_pg - np.sqrt(delta)) / 2
@@ -1121,6 +1123,9 @@ class PhaseField(_IModel):
 
             # compute BetaP and BetaM [e,pg]
             BetaP = (valp[..., 0] - valp[..., 1]) / v1_m_v2
+            # its limit for a repeated eigenvalue is d(v^+)/dv (projP = dvalp * Id there)
+            eq12 = val_e_pg[..., 0] == val_e_pg[..., 1]
+            BetaP[eq12] = dvalp[..., 0][eq12]
             # BetaM = (valm[..., 0] - valm[..., 1]) / v1_m_v2
 
             # compute gammap and gammam
